@@ -11,6 +11,7 @@ import ClipVerif.Model.IntersectList
 import ClipVerif.Proofs.IntersectList
 import ClipVerif.Model.AelPtr
 import ClipVerif.Proofs.AelPtr
+import ClipVerif.Proofs.AelPtrProcess
 /-
 C01 — boolean operations return the set-theoretic region.  Proved here: the local decisions of the
 sweep (everything the engine *decides* from winding counts); the global composition of the sweep is
@@ -296,5 +297,18 @@ theorem ael_swapAdj_refines (h : Model.AelPtr.Heap) (l l' : List Nat) (a b : Nat
 theorem ael_walk_reads_list (h : Model.AelPtr.Heap) (l : List Nat) (hw : Proofs.AelPtr.WF h l) (fuel : Nat)
     (hf : l.length ≤ fuel) : Model.AelPtr.toList fuel h = l := by
   exact Proofs.AelPtr.toList_of_WF h l hw fuel hf
+
+/-- end to end on pointers: from a heap that represents the AEL `0 … n-1` whose edges have the x values
+`xs` at the top of the scanbeam, taking the nodes `buildIntersectList` emits in whatever order `sort.Slice`
+leaves them, the scan of `processIntersectList` always finds a node with adjacent edges and the
+`swapPositionsInAEL` calls it makes leave a well-formed doubly linked list that holds every edge once,
+sorted by x at the top of the beam -/
+theorem doIntersections_on_pointers (xs : List Int) (h : Model.AelPtr.Heap)
+    (hw : Proofs.AelPtr.WF h (List.range xs.length)) (ns : List Model.Ix.Node)
+    (hperm : ns.Perm (Model.Ix.build xs).2) :
+    ∃ done l', Model.Ix.process ns (List.range xs.length) = some (done, l') ∧
+      Proofs.AelPtr.WF (Proofs.AelPtrProcess.swapAll h done) l' ∧
+      l'.Perm (List.range xs.length) ∧ l'.Pairwise (fun a b => xs[a]! ≤ xs[b]!) := by
+  exact Proofs.AelPtrProcess.doIntersections_pointers xs h hw ns hperm
 
 end C01
